@@ -5,10 +5,11 @@ import FluentProofs.ParserRuntime
 /-!
 # Serializer lemmas, part 19: the comments the parser produces are of the class (C04, "parser output is in the class")
 
-For a source in which every byte 13 is followed by a byte 10 (in particular: without the byte 13): every
+For EVERY source (`parse_comments_all`; the versions with a hypothesis on the byte 13 are kept for their users): every
 comment of the tree returned by `parse` (stand-alone comments
 of the three levels and the comments attached to messages and terms) is non-empty and none of its
-lines contains a line break (`rtComment`).
+lines contains a `\n` (`rtComment`; a lone `\r` stays inside the line — a comment line ends at the first `\n` or
+`\r\n`).
 -/
 namespace FluentProofs.Ser
 open FluentModel FluentModel.Syntax FluentModel.Syntax.Ser FluentProofs.Parser
@@ -59,17 +60,19 @@ theorem getCommentLine_ok {s : Src} {p : Nat} {line : Span} {q : Nat} (h : getCo
     exact commentLineEndGo_noeol s _ p j h1 h2
   · cases h
 
-theorem commentLineOK_of {s : Src} (hcr : CrLfOnly s) {sp : Span} (h : LineOK s sp) :
+theorem commentLineOK_of' {s : Src} {sp : Span} (h : LineOK s sp) :
     commentLineOK (spanBytes s sp) = true := by
   obtain ⟨a, b⟩ := sp
   unfold commentLineOK
   apply spanBytes_all
   intro j h1 h2 c hc
   have h10 := isEol_false_ne10 (h j h1 h2)
-  have h13 := isEol_false_ne13 hcr (h j h1 h2)
-  rw [hc] at h10 h13
-  simp only [Bool.and_eq_true, bne_iff_ne, ne_eq]
-  exact ⟨fun e => h10 (by rw [e]), fun e => h13 (by rw [e])⟩
+  rw [hc] at h10
+  simp only [bne_iff_ne, ne_eq]
+  exact fun e => h10 (by rw [e])
+
+theorem commentLineOK_of {s : Src} (_hcr : CrLfOnly s) {sp : Span} (h : LineOK s sp) :
+    commentLineOK (spanBytes s sp) = true := commentLineOK_of' h
 
 /-! ## `get_comment` -/
 
@@ -179,13 +182,13 @@ theorem getCommentGo_ne (s : Src) : ∀ (n level : Nat) (content : List Span) (p
 /-- a comment of the class -/
 def CmtOK (s : Src) (c : List Span) : Prop := rtComment (c.map (spanBytes s)) = true
 
-theorem cmtOK_of {s : Src} (hcr : CrLfOnly s) {c : List Span} (hne : c ≠ [])
+theorem cmtOK_of {s : Src} {c : List Span} (hne : c ≠ [])
     (hl : ∀ x ∈ c, LineOK s x) : CmtOK s c := by
   simp only [CmtOK, rtComment, Bool.and_eq_true, Bool.not_eq_true', List.isEmpty_eq_false_iff, List.all_eq_true,
     List.mem_map, ne_eq, List.map_eq_nil_iff]
   refine ⟨hne, ?_⟩
   rintro _ ⟨x, hx, rfl⟩
-  exact commentLineOK_of hcr (hl x hx)
+  exact commentLineOK_of' (hl x hx)
 
 def OptCmtOK (s : Src) (o : Option (List Span)) : Prop := ∀ c, o = some c → CmtOK s c
 
@@ -198,7 +201,7 @@ def cEntry (s : Src) : Entry Span → Prop
   | .resourceComment c => CmtOK s c
   | .junk _ => True
 
-theorem getEntry_c {s : Src} (hcr : CrLfOnly s) (fuel p : Nat) :
+theorem getEntry_c {s : Src} (fuel p : Nat) :
     Post (getEntry s fuel p) (cEntry s) := by
   intro a q h
   simp only [getEntry] at h
@@ -209,7 +212,7 @@ theorem getEntry_c {s : Src} (hcr : CrLfOnly s) (fuel p : Nat) :
     rename_i content level q1 hgc
     have hok : CmtOK s content := by
       unfold getComment at hgc
-      exact cmtOK_of hcr (getCommentGo_ne s _ _ _ _ _ _ _ (Or.inr ⟨rfl, h35⟩) hgc)
+      exact cmtOK_of (getCommentGo_ne s _ _ _ _ _ _ _ (Or.inr ⟨rfl, h35⟩) hgc)
         (getCommentGo_lines s _ _ _ _ _ _ _ (by intro x hx; simp at hx) hgc)
     split at h
     · cases h; exact hok
@@ -233,7 +236,7 @@ theorem getEntry_c {s : Src} (hcr : CrLfOnly s) (fuel p : Nat) :
     rw [getMessage_comment_none s fuel _ _ m _ hm] at hc
     cases hc
 
-theorem parseLoop_c {s : Src} (hcr : CrLfOnly s) (fuel : Nat) :
+theorem parseLoop_c {s : Src} (fuel : Nat) :
     ∀ (n : Nat) (body : List (Entry Span)) (errors : List PErr)
     (lc : Option (List Span)) (cnt p : Nat) (t : List (Entry Span)) (errs : List PErr),
     (∀ e ∈ body, cEntry s e) → OptCmtOK s lc → parseLoop s fuel n body errors lc cnt p = .done (t, errs) →
@@ -252,7 +255,7 @@ theorem parseLoop_c {s : Src} (hcr : CrLfOnly s) (fuel : Nat) :
       · exact hb e he
       · exact hx
     split at h
-    · have hr := getEntry_c hcr fuel p
+    · have hr := getEntry_c (s := s) fuel p
       have hjunk : ∀ content : Span, cEntry s (.junk content) := fun c => trivial
       cases hge : getEntry s fuel p with
       | panic m => cases lc <;> simp [hge] at h
@@ -316,10 +319,18 @@ theorem parseLoop_c {s : Src} (hcr : CrLfOnly s) (fuel : Nat) :
 `\n`: every stand-alone comment (`#`, `##`, `###`) of the tree returned by `parse` and every comment attached to
 a message or a term is non-empty and none of its lines contains a line break (a comment line ends at the first
 `\n` or `\r\n`). -/
-theorem parse_comments_cr (s : Src) (hcr : ∀ j : Nat, s[j]? = some (13 : UInt8) → s[j + 1]? = some (10 : UInt8))
+theorem parse_comments_cr (s : Src) (_hcr : ∀ j : Nat, s[j]? = some (13 : UInt8) → s[j + 1]? = some (10 : UInt8))
     (t : Resource Span) (errs : List PErr) (h : parse s = .done (t, errs)) : ∀ e ∈ t, cEntry s e := by
   unfold parse at h
-  exact parseLoop_c hcr _ _ [] [] none 0 _ t errs (by simp) (fun c hc => by cases hc) h
+  exact parseLoop_c _ _ [] [] none 0 _ t errs (by simp) (fun c hc => by cases hc) h
+
+/-- **The comments the parser produces are of the class — every source**: every comment of the tree returned by `parse`
+(stand-alone or attached) is non-empty and none of its lines contains a `\n` (a comment line ends at the first `\n` or
+`\r\n`; a lone `\r` stays inside the line, which the class admits). -/
+theorem parse_comments_all (s : Src) (t : Resource Span) (errs : List PErr) (h : parse s = .done (t, errs)) :
+    ∀ e ∈ t, cEntry s e := by
+  unfold parse at h
+  exact parseLoop_c _ _ [] [] none 0 _ t errs (by simp) (fun c hc => by cases hc) h
 
 /-- **The comments the parser produces are of the class.**  For a source without the byte 13: every
 stand-alone comment (`#`, `##`, `###`) of the tree returned by `parse` and every comment attached to a
